@@ -334,6 +334,67 @@ func (h *HolderPtrPrefixed) Check(nameOf func(any) string) []string {
 }
 
 // NewEmbedFixtures returns fresh fixture holders with sentinels in the fields the container must not touch.
+// Blank (padding / no-copy / alignment) fields in front of tagged fields, directly and inside an embedded
+// struct: every tag is applied to the field that carries it.
+type BlankMix struct {
+	_     [0]func()
+	Name  string
+	_     struct{}
+	Title string `value:"hello"`
+	Count int    `prop:"c11.i"`
+}
+
+type HolderBlank struct {
+	_ struct{}
+	N string
+	V string `value:"own"`
+	_ int32
+	D IA `wire:"pab"`
+	BlankMix
+}
+
+func (h *HolderBlank) Check(nameOf func(any) string) []string {
+	var out []string
+	if h.N != "SENTINEL" || h.Name != "SENTINEL" {
+		out = append(out, fmt.Sprintf("untagged fields next to blank fields were written: N=%q Name=%q", h.N, h.Name))
+	}
+	if h.V != "own" || h.Title != "hello" || h.Count != 17 || nameOf(h.D) != "pab" {
+		out = append(out, fmt.Sprintf("tagged fields behind blank fields: V=%q Title=%q Count=%d D=%s, expected own / hello / 17 / pab", h.V, h.Title, h.Count, nameOf(h.D)))
+	}
+	return out
+}
+
+// One struct type embedded by value through two paths: both copies are scanned.
+type AuditMix struct {
+	Tag string `value:"audit"`
+	Dep IA     `wire:"pa"`
+}
+type ReaderMix struct {
+	AuditMix
+	R string `value:"r"`
+}
+type WriterMix struct {
+	AuditMix
+	W string `value:"w"`
+}
+type HolderTwoPaths struct {
+	ReaderMix
+	WriterMix
+}
+
+func (h *HolderTwoPaths) Check(nameOf func(any) string) []string {
+	var out []string
+	for path, a := range map[string]*AuditMix{"ReaderMix.AuditMix": &h.ReaderMix.AuditMix, "WriterMix.AuditMix": &h.WriterMix.AuditMix} {
+		if a.Tag != "audit" || nameOf(a.Dep) != "pa" {
+			out = append(out, fmt.Sprintf("%s: Tag=%q Dep=%s, expected audit / pa (the same struct type is embedded through two paths)", path, a.Tag, nameOf(a.Dep)))
+		}
+	}
+	if h.R != "r" || h.W != "w" {
+		out = append(out, fmt.Sprintf("R=%q W=%q", h.R, h.W))
+	}
+	return out
+}
+
 func NewEmbedFixtures() []EmbedFixture {
 	a := &HolderFlat{u: 777, N: "SENTINEL"}
 	b := &HolderLowerDirect{}
@@ -344,6 +405,8 @@ func NewEmbedFixtures() []EmbedFixture {
 	d.u, d.N = 777, "SENTINEL"
 	return []EmbedFixture{a, b, c, d, &HolderSiblings{}, &HolderPtrEmbedded{SharedState: &SharedState{V: "SENTINEL"}},
 		&HolderLogger{},
+		&HolderBlank{N: "SENTINEL", BlankMix: BlankMix{Name: "SENTINEL"}},
+		&HolderTwoPaths{},
 		&HolderBothTags{},
 		&HolderPtrPrefixed{Defaults: PtrPrefixed{Keep: "SENTINEL", N: 4242}, Shadow: PtrPrefixed{Keep: "SENTINEL", N: 4242}},
 		&HolderTaggedEmbeds{Stamped: Stamped{Inner: "SENTINEL"}, OptionsMix: OptionsMix{V: "SENTINEL"}},
